@@ -742,7 +742,10 @@ func (g *c06gen) construct() {
 		cb := g.fresh("cb")
 		exit := g.r.Pick([]string{"", "", "    boom(0)\n", "    fault(\"k\")\n"})
 		g.addDef("boom", "def boom(x):\n    return [1][x + 5]\n")
-		g.addDef(cb, fmt.Sprintf("def %s(e):\n    may(%s, %s)\n%s    return 0\n", cb, g.mut(c), "CB_"+c.name, exit))
+		// the built-in is walking the collection while it calls the key function
+		// (it holds its iterator until it returns): mutation from inside the
+		// call-back must be refused like anywhere else during an iteration
+		g.addDef(cb, fmt.Sprintf("def %s(e):\n    must_fail(%s, %s)\n%s    return 0\n", cb, g.mut(c), "CB_"+c.name, exit))
 		// the call-back reaches the collection through a global alias set by main
 		g.emit(1, "CBS[%q] = %s", c.name, c.name)
 		g.defs[cb] = strings.ReplaceAll(g.defs[cb], "CB_"+c.name, fmt.Sprintf("CBS[%q]", c.name))
